@@ -11,6 +11,7 @@ COMMON_TRUSTED = [
 
 # (file under coq/Gen, acra-vh arguments that print it): regenerated from /repo on every run
 GENERATORS = [
+    ("HistCacheKeys.v", ["c06cachekeys"]),
     ("PoisonDetectorState.v", ["c15histstate"]),
     ("KeyImportConsts.v", ["c07impconsts"]),
     ("StagesConsts.v", ["c04stagesconsts"]),
@@ -189,7 +190,8 @@ PROPS = {
         ],
         "properties": [
             "C20",
-            "C20_json"
+            "C20_json",
+            "C20_cef_trim"
         ],
         "trusted": [
             "modelled, not verified: logrus' rendering of an entry into the formatted bytes (TextFormatter / CEFTextFormatter / JSONFormatter output is the model's input; the harness checks that the authenticated bytes ARE the formatter's output; for JSON a spy hook records what JSONFormatterHook.PostFormat receives)",
@@ -354,7 +356,8 @@ PROPS = {
             "C14_tokenizer",
             "C14_parsers",
             "C14_trans",
-            "C14_trans2"
+            "C14_trans2",
+            "C14_bytea_runes"
         ],
         "domains": [
             {
@@ -412,9 +415,17 @@ PROPS = {
                 "n_quick": 60,
                 "n_thorough": 3000,
                 "model": True
+            },
+            {
+                "name": "c14bytea",
+                "run_vo": "Model/RunByteaRunes.vo",
+                "n_quick": 60,
+                "n_thorough": 3000,
+                "model": True
             }
         ],
         "trusted": [
+            "bytea ESCAPE decoder over runes (Model/ByteaRunes.v, Properties/C14_bytea_runes.v, domain c14bytea): utils.DecodeOctal's []rune(string(data)) is Model/Bytea.v to_runes (Go's UTF-8 decoder re-stated: one rune U+FFFD per invalid byte), unicode.IsControl = Cc of Latin-1 and utf8.EncodeRune are re-stated there; all three are tied to the real code by the replay only (valid 2-/3-/4-byte characters, overlong / surrogate / out-of-range / cut sequences x every truncation of an escape, in every tier). The consumers (PgQueryDBDataCoder.Decode of a string literal, pgBoundValue.GetData text, PgSQLDataDecoderProcessor.OnColumn text, types.ByteaDataTypeEncoder.Decode text) are modelled only as 'DecodeEscaped, value kept on ErrDecodeOctalString' for one encryption-only setting without data type",
             "Lib/GoSlice.v is the definition of Go's slice/index/make run-time checks used by the checked model (slices are modelled with cap = len, which can only add panics); tied to the real code by replaying every observed ok/err/PANIC outcome of the malformed stream on the checked model",
             "modelled, not verified: Themis itself (abstract record); processors/callbacks of the scanners are universally quantified functions that never panic",
             "Properties/C14_envelope.v holds the 55 envelope theorems of C14; Properties/C14.v re-exports it with the headline conjunction",
@@ -528,7 +539,8 @@ PROPS = {
         "properties": [
             "C06",
             "C06_data",
-            "C06_data_v1"
+            "C06_data_v1",
+            "C06_cachekeys"
         ],
         "domains": [
             {
@@ -550,7 +562,8 @@ PROPS = {
             "harness/vh/memfs.go: in-memory implementation of acra's filesystem.Storage (os semantics of ReadDir order, hard links, rename, O_EXCL copy) under the real keystore v1; keystore v2 runs on acra's own backend.NewInMemory",
             "key versions are identified by reading the new key through a second, uncached keystore object right after each generation",
             "modelled, not verified: master-key encryption of stored keys (C07), export/import, key ring signatures and the directory/redis back ends; C06_data: listings (ListKeys / ListRotatedKeys rows: part, index, state) and current public keys are observations of the model, creation times / purpose / client-id strings and the global listing order are checked by the implementation oracle only; the data theorems compose keystore v2 (C06_data) and the UNCACHED keystore v1 (C06_data_v1, strengthened invariant: .pub label = private label) with the C01 envelope model; keystore v1 with a key cache is not composed with data (cache theorems of C06 only); v1 listing rows are theorems up to the creation times (proved strictly ascending, values replayed)",
-            "Gen/KeyStates.v regenerated from /repo (asn1.NoKey, firstSeqnum via hook, api.KeyStateTransitionValid table, cache size constants)"
+            "Gen/KeyStates.v regenerated from /repo (asn1.NoKey, firstSeqnum via hook, api.KeyStateTransitionValid table, cache size constants)",
+            "keystore v1 directory string: every v1 keystore of the domains c06 / c06data is opened on the in-memory Storage with the key directory written in one of 7 spellings of the same directory (clean, trailing slash, ./x, doubled separator, x/./y, x/../x, relative with trailing /.), cycled deterministically against the cache modes; the model has no notion of the spelling (cache keyed by file NAME): Gen/HistCacheKeys.v (`acra-vh c06cachekeys`, run-time probe of the real key store with a recording cache through the hooks filesystem.VerifSetCache / VerifCacheKeyPrefix, site = runtime.Callers function <- caller) + theorem historical_cache_keys_agree (Properties/C06_cachekeys.v) is the finite check that every place that builds a `.historical.<path>` cache key normalises the path alike; trusted: harness/vh/memfs.go resolves paths lexically (filepath.Clean of \"/\"+path on every access, working directory = /), which equals the OS resolution when no component is a symbolic link"
         ],
         "assumptions": [
             "clock readings used to name rotated key files of keystore v1 are strictly increasing (premise increasing_from of the v1 theorems; the harness checks it on every history)",
@@ -563,6 +576,7 @@ PROPS = {
             "C09",
             "C09_conditions",
             "C09_resolution",
+            "C09_alias",
             "C09_composition"
         ],
         "domains": [
@@ -826,6 +840,7 @@ PROPS = {
         "properties": [
             "C12",
             "C12_mysql",
+            "C12_mysql_resultset",
             "C12_desc",
             "C14_trans",
             "C14_trans2"
@@ -854,6 +869,7 @@ PROPS = {
             }
         ],
         "trusted": [
+            "MySQL whole result sets (Model/MysqlResultSet.v, Properties/C12_mysql_resultset.v, c12myrs.go in domain c12my): the row loop of QueryResponseHandler (text protocol, AFTER fix_mysql_err_after_rows) is a hand-written model over read_packet / is_rows_end / is_err / set_data / dump with the row processing as an arbitrary function; it is tied to the code by the implementation oracle mysql-resultset-relay on the in-process rig harness/myrig/c12my_rig.go (scripted raw back end, real ProxyClientConnection / ProxyDatabaseConnection / QueryResponseHandler / PreparedStatementResponseHandler, capabilities negotiated in the connection phase) and by the MxClassify replay of every terminator / row packet of at most 300 bytes; the column-definition part of the handler and the binary row loop are covered by the oracle only",
             "modelled, not verified: Go's io.ReadFull/io.CopyN/bytes.Buffer/bufio.Writer (a reader over a byte stream yields the next n bytes or an error), encoding/binary, encoding/hex, unicode/utf8 ([]rune conversion and EncodeRune are written out in Model/Bytea.v and replayed against the real functions)",
             "the literal tag bytes 0xfb..0xfe and bounds 250/0xffff/0xffffff of decryptor/mysql/base/utils.go are written in the model (they are not named constants); the replay of the boundary table on every run ties them to the code",
             "Bind / Parse / Execute / GetSimpleQuery are CHECKED models (Lib/GoSlice.v; int(uint16)/int(uint32) written out; the NULL parameter marker 0xFFFFFFFF is a literal of utils.go tied by the replay of the edge table); several messages through one handler object are modelled as independent messages (Model/PgWire.v session: the history of the packet buffer must not show; op PgSession); PgProxy.handleClientPacket with a rewriting query observer (hooks VerifS14Proxy + VerifS32AddQueryObserver) is replayed as the handler-path op of the same message (Parse / Query; Bind through OnBind/SetParameters: implementation oracle only); not modelled (implementation oracle only, through the hook VerifS14Proxy): PgProxy.handleClientPacket / handleDatabasePacket around them (statement registry, pg_query, pgproto3's RowDescription/ParameterDescription codecs)",
@@ -866,11 +882,27 @@ PROPS = {
         ]
     },
     "C03": {
-        "domains": [dom("c03", "Model.RunEnvelope", 4, 25)],
-        "trusted": ["'Forgery' in the theorems is an explicit witness (a successful AEAD opening of a ciphertext never produced under that key/context); Themis' actual unforgeability is outside the theorems",
-                    "the stand-in's tag is a bijective-step hash: every single-bit change is detected, which the tamper enumeration relies on"],
-        "assumptions": ["data-key freshness (dek not among the client's keys) as an explicit premise where needed"],
-        "rule": "for sample protected values of each kind: bit flips (sampled; exhaustive for the first samples in the thorough tier), truncations, extensions, every header field x boundary values (0, small, exact+-1, 2^31, 2^63+-1, 2^64-k), envelope-id/type bytes, splices of two values, swapped/flipped search hashes; at every reveal entry point; each call replayed on the model",
+        "properties": [
+            "C03",
+            "C03_header"
+        ],
+        "domains": [
+            {
+                "name": "c03",
+                "run_vo": "Model/RunEnvelope.vo",
+                "n_quick": 4,
+                "n_thorough": 25,
+                "model": True
+            }
+        ],
+        "trusted": [
+            "'Forgery' in the theorems is an explicit witness (a successful AEAD opening of a ciphertext never produced under that key/context); Themis' actual unforgeability is outside the theorems",
+            "the stand-in's tag is a bijective-step hash: every single-bit change is detected, which the tamper enumeration relies on"
+        ],
+        "assumptions": [
+            "data-key freshness (dek not among the client's keys) as an explicit premise where needed"
+        ],
+        "rule": "for sample protected values of each kind: bit flips (sampled; exhaustive for the first samples in the thorough tier), truncations, extensions, every header field x boundary values (0, small, exact+-1, 2^31, 2^63+-1, 2^64-k), envelope-id/type bytes, splices of two values, swapped/flipped search hashes; at every reveal entry point; each call replayed on the model; header rule (c03header.go, Properties/C03_header.v): every altered value that still carries the container tag and a known envelope id but whose declared length is not in (12, len] must be refused by DeserializeEncryptedData (12 itself allowed there), DecryptWithHandler, Process, translator.Decrypt, MatchDataSignature and must not be handed back unchanged by EncryptWithHandler; the length field runs over 0..14, len/2, len-2..len+2, len+12/13, 2^16, 2^31-1, 2^31, 2^32, 2^63-1..2^63+1, 2^64-13..2^64-1, also on an extended value"
     },
     "C01": {
         "properties": [
